@@ -5,6 +5,7 @@ namespace Np.DT
 /-- regenerated from `cvalues.pyx` each run: the source dtypes `cset_values` handles
 (an unrecognised switch fails closed: no dtype is assumed to be handled) -/
 def csetDtypes : List DType := Generated.csetDtypes?.getD []
+def caddDtypes : List DType := Generated.caddDtypes?.getD []
 
 /-- what ends up in a field of dtype `field` -/
 inductive Cell where
@@ -17,15 +18,34 @@ deriving DecidableEq, Repr
 def cset (src field : DType) : Cell :=
   if src ∈ csetDtypes then (if src = field then .val src field else .garbage) else .uninit
 
-/-- shipped `polynomial_from_attributes`: dtype argument or the first coefficient's; coefficients not cast -/
+/-- shipped `polynomial_from_attributes` before the repair of D10: dtype argument or the first coefficient's;
+coefficients not cast; every dtype handed to the compiled writer -/
 def fromAttributesOld (src : DType) (requested : Option DType) : DType × Cell :=
   let field := requested.getD src
   (field, cset src field)
 
-/-- repaired: cast to the field dtype first; C helper only for the dtypes it knows, numpy assignment otherwise -/
-def fromAttributes (src : DType) (requested : Option DType) : DType × Cell :=
+/-- as repaired: cast to the field dtype first (`numpy.require(coeff, dtype=field)`), then the compiled writer
+only for the dtypes listed in `CFUNCTION_DTYPES`, numpy field assignment otherwise -/
+def fromAttributesWith (guard : List DType) (src : DType) (requested : Option DType) : DType × Cell :=
   let field := requested.getD src
-  -- after `numpy.require(coeff, dtype=field)` the source of the raw write has dtype `field`
-  if field ∈ csetDtypes then (field, match cset field field with | .val _ _ => .val src field | c => c)
+  if field ∈ guard then (field, match cset field field with | .val _ _ => .val src field | c => c)
   else (field, .val src field)
+
+/-- the constructor of the working tree: with the guard when the source has one, the old path otherwise -/
+def fromAttributes (src : DType) (requested : Option DType) : DType × Cell :=
+  match Generated.cfunctionDtypes? with
+  | some guard => fromAttributesWith guard src requested
+  | none => fromAttributesOld src requested
+
+/-- position of a dtype in `all` -/
+def idx (d : DType) : Nat := all.idxOf d
+
+/-- numpy's promotion (`numpy.result_type`) from the regenerated table -/
+def promote (a b : DType) : DType := ((Generated.promotion.getD (idx a) []).getD (idx b) a)
+
+/-- the product term written by `multiply` (as repaired): both factors are cast to the promoted dtype; the compiled
+kernel is used only for guarded dtypes, else numpy arithmetic; either way the cell holds a value of that dtype -/
+def multiplyCell (guard : List DType) (a b : DType) : DType × Cell :=
+  let d := promote a b
+  if d ∈ guard then (d, match cset d d with | .val _ _ => .val d d | c => c) else (d, .val d d)
 end Np.DT
